@@ -28,7 +28,7 @@ PROPERTY = "C02"
 CHUNK = {"quick": 24, "thorough": 60}
 PROBES = ["inspect_body", "inspect_header_only", "inspect_failed_parse", "noncanonical_zero_coding",
           "corrupt_forwarded", "corrupt_discarded", "tricky_text", "omitted_trailing_block", "eager_parsing",
-          "body_inspected_twice"]
+          "body_inspected_twice", "logger_inspector"]
 COMPONENTS = dict(c06.COMPONENTS)
 COMPONENTS["stub"] = COMPONENTS["stub"] + ["inspectors (passive subscribers / addon hook that only read)"]
 ASSUMPTIONS = c06.ASSUMPTIONS + [
@@ -60,6 +60,8 @@ def gen_plan(rng: random.Random, tier: str) -> dict:
             "region": rng.choice([None, "mix", "body", "header"]),
             "addon": rng.choice([None, "mix", "body", "header"]),
             "twice": rng.random() < 0.3,
+            # the GUI's message log as one more inspector: a field filter makes it parse every body it is shown
+            "logger": rng.choice([None, None, "name", "field"]),
         },
     }
     p_corrupt = rng.choice([0.0, 0.1, 0.3])
@@ -128,7 +130,7 @@ def simplify_plan(plan):
     yield from c06.simplify_plan(plan)
     cfg = plan["cfg"]
     ins = cfg["inspect"]
-    for k in ("session", "region", "addon"):
+    for k in ("session", "region", "addon", "logger"):
         if ins.get(k):
             yield {**plan, "cfg": {**cfg, "inspect": {**ins, k: None}}}
     for k in ("session", "region", "addon"):
@@ -228,6 +230,14 @@ class Inspectors:
 def _setup(world, model, oracle, driver, res):
     cfg = world.cfg["inspect"]
     insp = Inspectors(world, oracle, res, cfg)
+    if cfg.get("logger"):
+        from hippolyzer.lib.proxy.message_logger import FilteringMessageLogger, WrappingMessageLogger
+        flog = FilteringMessageLogger(maxlen=8)
+        flog.set_filter("*" if cfg["logger"] == "name" else '*.*.* ~= "zz" || *.*.Nope')
+        wrap = WrappingMessageLogger()
+        wrap.loggers.append(flog)
+        world.sm.message_logger = wrap
+        res.probe("logger_inspector")
 
     class InspectorAddon:
         def handle_lludp_message(self, session, region, message):
